@@ -67,3 +67,23 @@ Proof.
   eexists. eexists. split; [vm_compute; reflexivity|]. split; [vm_compute; reflexivity|].
   split; vm_compute; reflexivity.
 Qed.
+
+(* TCP: a forwarded frame is exactly the UDP forwarding of the same message behind its 2-byte length *)
+Lemma tcp_frame_is_udp msg f : forward_tcp_frame msg = Ok f ->
+  exists b, forward_udp msg = Ok b /\ f = put_u16be (N.of_nat (length b)) ++ b.
+Proof.
+  unfold forward_tcp_frame, forward_udp. destruct (DnsMessage.unpack msg) as [m|e]; [|discriminate].
+  cbn [bind]. unfold pack_message. destruct (packed m) as [p|e]; [|discriminate]. cbn [bind].
+  unfold pack_u16. destruct (N.of_nat (length p) <? 65536)%N; [|discriminate]. cbn [bind].
+  intros [= <-]. exists p. split; reflexivity.
+Qed.
+
+Lemma tcp_stream_app a b : forward_tcp_stream (a ++ b) =
+  match forward_tcp_stream a, forward_tcp_stream b with Some x, Some y => Some (x ++ y) | _, _ => None end.
+Proof.
+  induction a as [|m a IH]; cbn [app forward_tcp_stream].
+  - destruct (forward_tcp_stream b); reflexivity.
+  - rewrite IH. destruct (forward_tcp_frame m); [|reflexivity].
+    destruct (forward_tcp_stream a); [|reflexivity]. destruct (forward_tcp_stream b); [|reflexivity].
+    rewrite app_assoc. reflexivity.
+Qed.
